@@ -454,31 +454,32 @@ structure StereoOk (p : StereoPred) : Prop where
   /-- the raw indices: `ix[n][0] < 3`, `ix[n][1] < STEREO_QUANT_SUB_STEPS = 5`, `ix[n][2] < 5` -/
   ix : ∃ a0 a1 i02 b0 b1 i12, p.ix = [a0, a1, i02, b0, b1, i12] ∧ a0 ≤ 2 ∧ a1 ≤ 4 ∧ i02 ≤ 4 ∧ b0 ≤ 2 ∧ b1 ≤ 4 ∧ i12 ≤ 4
 
-theorem stereoIx_ok (c : Dec) (n a0 a1 b0 b1 : Nat) (c' : Dec) (h : stereoIx c = ((n, a0, a1, b0, b1), c')) :
+theorem stereoIxG_ok (tj t3 t5 : List Nat) (hj : zeroPos tj = 24) (h3' : zeroPos t3 = 2) (h5' : zeroPos t5 = 4)
+    (c : Dec) (n a0 a1 b0 b1 : Nat) (c' : Dec) (h : stereoIxG tj t3 t5 c = ((n, a0, a1, b0, b1), c')) :
     n ≤ 24 ∧ a0 ≤ 2 ∧ a1 ≤ 4 ∧ b0 ≤ 2 ∧ b1 ≤ 4 := by
-  unfold stereoIx at h
-  have h1 := sym_le_of c _ zp_stereoJoint
-  generalize sym c silk_stereo_pred_joint_iCDF = y at h h1
+  unfold stereoIxG at h
+  have h1 := sym_le_of c _ hj
+  generalize sym c tj = y at h h1
   split at h
   rename_i _ n' c1
   dsimp only at h1
-  have h2 := sym_le_of c1 _ zp_uniform3
-  generalize sym c1 silk_uniform3_iCDF = y at h h2
+  have h2 := sym_le_of c1 _ h3'
+  generalize sym c1 t3 = y at h h2
   split at h
   rename_i _ a0' c2
   dsimp only at h2
-  have h3 := sym_le_of c2 _ zp_uniform5
-  generalize sym c2 silk_uniform5_iCDF = y at h h3
+  have h3 := sym_le_of c2 _ h5'
+  generalize sym c2 t5 = y at h h3
   split at h
   rename_i _ a1' c3
   dsimp only at h3
-  have h4 := sym_le_of c3 _ zp_uniform3
-  generalize sym c3 silk_uniform3_iCDF = y at h h4
+  have h4 := sym_le_of c3 _ h3'
+  generalize sym c3 t3 = y at h h4
   split at h
   rename_i _ b0' c4
   dsimp only at h4
-  have h5 := sym_le_of c4 _ zp_uniform5
-  generalize sym c4 silk_uniform5_iCDF = y at h h5
+  have h5 := sym_le_of c4 _ h5'
+  generalize sym c4 t5 = y at h h5
   split at h
   rename_i _ b1' c5
   dsimp only at h5
@@ -486,21 +487,31 @@ theorem stereoIx_ok (c : Dec) (n a0 a1 b0 b1 : Nat) (c' : Dec) (h : stereoIx c =
   obtain ⟨⟨rfl, rfl, rfl, rfl, rfl⟩, rfl⟩ := h
   exact ⟨h1, h2, h3, h4, h5⟩
 
+theorem stereoIx_ok (c : Dec) (n a0 a1 b0 b1 : Nat) (c' : Dec) (h : stereoIx c = ((n, a0, a1, b0, b1), c')) :
+    n ≤ 24 ∧ a0 ≤ 2 ∧ a1 ≤ 4 ∧ b0 ≤ 2 ∧ b1 ≤ 4 :=
+  stereoIxG_ok _ _ _ zp_stereoJoint zp_uniform3 zp_uniform5 c n a0 a1 b0 b1 c' h
+
 theorem stereoMk_ok (n a0 a1 b0 b1 : Nat) (h : n ≤ 24 ∧ a0 ≤ 2 ∧ a1 ≤ 4 ∧ b0 ≤ 2 ∧ b1 ≤ 4) :
     StereoOk (stereoMk n a0 a1 b0 b1) := by
   unfold stereoMk
   refine ⟨by dsimp only; omega, by dsimp only; omega, ?_⟩
   exact ⟨a0, a1, n / 5, b0, b1, n - 5 * (n / 5), rfl, h.2.1, h.2.2.1, by omega, h.2.2.2.1, h.2.2.2.2, by omega⟩
 
-theorem stereoDecodePred_ok (c : Dec) (p : StereoPred) (c' : Dec) (h : stereoDecodePred c = (p, c')) :
-    StereoOk p := by
-  unfold stereoDecodePred at h
-  generalize hy : stereoIx c = y at h
+theorem stereoDecodePredG_ok (tj t3 t5 : List Nat) (hj : zeroPos tj = 24) (h3 : zeroPos t3 = 2) (h5 : zeroPos t5 = 4)
+    (c : Dec) (p : StereoPred) (c' : Dec) (h : stereoDecodePredG tj t3 t5 c = (p, c')) : StereoOk p := by
+  unfold stereoDecodePredG at h
+  generalize hy : stereoIxG tj t3 t5 c = y at h
   split at h
   rename_i _ n a0 a1 b0 b1 c5
   simp only [Prod.mk.injEq] at h
   obtain ⟨rfl, rfl⟩ := h
-  exact stereoMk_ok n a0 a1 b0 b1 (stereoIx_ok c n a0 a1 b0 b1 _ hy)
+  exact stereoMk_ok n a0 a1 b0 b1 (stereoIxG_ok tj t3 t5 hj h3 h5 c n a0 a1 b0 b1 _ hy)
+
+theorem stereoDecodePred_ok (c : Dec) (p : StereoPred) (c' : Dec) (h : stereoDecodePred c = (p, c')) :
+    StereoOk p :=
+  stereoDecodePredG_ok _ _ _ zp_stereoJoint zp_uniform3 zp_uniform5 c p c' h
+
+theorem stereoDecodeMidOnly_le (c : Dec) : (stereoDecodeMidOnly c).1 ≤ 1 := sym_le_of c _ zp_stereoMid
 
 /-! ### Header flags -/
 
